@@ -591,13 +591,22 @@ func (s *BaseNodeService) reinitDKG(message storage.Message) error {
 	// replayed proposal: a dump also holds whatever junk was posted to the board and refused by
 	// every node at the time. Only the self-confirmations that the 0.1.4 adaptation adds cannot be
 	// verified (they are made up by the tool and carry no signature).
+	// (a self-confirmation goes from a participant to itself and speaks for that participant)
 	isPatchMessage := func(msg storage.Message) bool {
-		if len(msg.Signature) != 0 || msg.SenderAddr != msg.RecipientAddr ||
+		if len(msg.Signature) != 0 || msg.SenderAddr == "" || msg.SenderAddr != msg.RecipientAddr ||
 			fsm.Event(msg.Event) != dpf.EventDKGDealConfirmationReceived {
 			return false
 		}
-		var req requests.DKGProposalDealConfirmationRequest
-		return json.Unmarshal(msg.Data, &req) == nil && string(req.Deal) == "self-confirm"
+		var dealReq requests.DKGProposalDealConfirmationRequest
+		if json.Unmarshal(msg.Data, &dealReq) != nil || string(dealReq.Deal) != "self-confirm" {
+			return false
+		}
+		round, err := s.fsmService.GetFSMInstance(req.DKGID, false)
+		if err != nil {
+			return false
+		}
+		senderID, err := round.GetIDByUsername(msg.SenderAddr)
+		return err == nil && senderID == dealReq.ParticipantId
 	}
 
 	operations := make([]*types.Operation, 0)
